@@ -58,6 +58,9 @@ def ob_commit(cx):
     tree_parent = rid("tree_parent")
     local_revno = cx.int("local_revno", 0, 1000)
     master_revno = cx.int("master_revno", 0, 1000) if bound else local_revno
+    if local_tip == master_tip:
+        cx.assume(local_revno == master_revno)          # same tip, same left-hand history length
+    master_moves = bound and bool(cx.choose("master_moves_before_lock", 0, 1))
     new_id = _Id(cx, 9)
 
     class Fmt:
@@ -93,6 +96,9 @@ def ob_commit(cx):
         def lock_write(self, token=None):
             self.locked += 1
             log.append(("lock_write", self.who))
+            if self.who == "master" and master_moves and self.locked == 1:
+                # another checkout committed to the master after the unlocked tip comparison, before we got the lock
+                self.tip, self.revno = _Id(cx, 7), self.revno + 1
             return contextlib.nullcontext()
 
         def set_last_revision_info(self, revno, revid):
@@ -165,13 +171,20 @@ def ob_commit(cx):
         want = "double_bound"
     elif uses_master and not (local_tip == master_tip):
         want = "bound_out_of_date"
+    elif uses_master and master_moves:
+        want = "tree_out_of_date"          # the tip is re-read under the master's lock: the tree is no longer up to date
+        cx.cover("master_moved")
     elif not (ref_tip == tree_parent) and not (ref_tip == NULL):
         want = "tree_out_of_date"
     else:
         want = "ok"
     cx.require(outcome == want, "commit ended with %s, expected %s" % (outcome, want))
     if want != "ok":
-        cx.require(after == before, "a refused commit changed a branch: %r -> %r" % (before, after))
+        if uses_master and master_moves and ("lock_write", "master") in log:
+            before = (before[0], before[1], _Id(cx, 7), before[3] + 1)      # what the other committer left
+        cx.require(after[0] == before[0] and T(after[1] == before[1]) and after[2] == before[2]
+                   and (after[3] is None or T(after[3] == before[3])),
+                   "a refused commit changed a branch: %r -> %r" % (before, after))
         cx.require(not [e for e in log if e[0] in ("set_tip", "import")], "a refused commit wrote a tip")
         cx.cover("refused")
         cx.cover(want)
@@ -201,6 +214,6 @@ def ob_commit(cx):
 def obligations(tier):
     q = tier == "quick"
     return [Ob("bound_commit", ob_commit, [CM], {}, 900 if q else 3600, 2 if q else 1,
-               ["refused", "bound_commit", "local_commit", "unbound_commit", "bound_out_of_date", "tree_out_of_date", "double_bound"],
+               ["refused", "bound_commit", "local_commit", "unbound_commit", "bound_out_of_date", "tree_out_of_date", "double_bound", "master_moved"],
                bounds="local / master / tree-parent revision ids arbitrary (5 symbolic ids + null), revnos 0..1000 symbolic, "
                       "bound or not, --local or not, master itself bound or not, formats with / without stored revno")]
